@@ -4,6 +4,8 @@ SPEC = {
     "coq_targets": ["Props/C12.vo"],
     "harness": "hx-poolchain",
     "harness_args": ["C12"],
+    "thorough_shards": 12,
+    "shard_par": 3,
     "translators": [],
     "technique": "Coq model of update_tx_pool_for_reorg at the level of pool membership and stages (remove_committed_txs + resolve_conflict + header-dep conflicts, remove_by_detached_proposal, stage moves, remove_expired, limit_size, readd_detached_tx) with proofs for all pools / notifications / chain views, refutation witnesses for the clauses the code does not guarantee, and a real node (chain + tx-pool service + block assembler) driven through histories with the property predicate evaluated on the real pool dump and snapshot after every processed notification",
     "level_text": "Proof (Coq), partial: for the transcription of update_tx_pool_for_reorg (Pool/Reorg.v) and every pool, attached/detached blocks, detached proposal ids, chain view, expiry cut-off, size limit and every behaviour of the ancestor limit and of the eviction order: no transaction of an attached block is pooled afterwards (c12_no_committed); no pooled transaction depends on a detached header (c12_no_detached_header); a transaction committed only on the abandoned branch that resolves against the new chain + pool, pays the minimum fee and passes the ancestor limit when its turn comes is pooled afterwards (c12_readmitted); on a block-assembler node every pooled id inside the proposed set of the new window is in stage Proposed and every Pending entry is in neither set (c12_stage_matches_window_partial). The clause 'every input/dep is live or pooled' is FALSE of the code in four recorded ways (F6 remove_expired, F7 submit_entry race, F11 lost parent after a reorg, F12 remove_by_detached_proposal) and the full stage clause in one (F13 Gap entries are never demoted): Coq witnesses c12_*_refuted, each reproduced on the real node and recorded as known finding. The real node is driven through >= 40 histories (quick) of submissions, mined templates, outside blocks, reorgs of depth 1..6, expiry edges and two-step submissions; after each of ~1200 processed notifications the predicate is evaluated on the real pool and snapshot, and where the model is determined (consistent aggregates, no eviction, no cell-dep edges, no racing submission) the pool contents and stages are recomputed by the model and compared.",
